@@ -89,6 +89,16 @@ class DispatchStation(VehicleState):
             # already there!
             next_state = ChargingStation.build(self.vehicle_id, self.station_id, self.charger_id)
             return next_state.enter(sim, env)
+
+        # the plug we are heading for must exist at the station and fit this vehicle; otherwise
+        # the vehicle could neither charge nor leave the queue once it arrives
+        mechatronics = env.mechatronics.get(vehicle.mechatronics_id)
+        charger_err, charger = station.get_charger_instance(self.charger_id)
+        if charger_err is not None:
+            return charger_err, None
+        elif mechatronics is None or charger is None or not mechatronics.valid_charger(charger):
+            msg = f"vehicle {vehicle.id} can't use charger {self.charger_id}; context: {context}"
+            return SimulationStateError(msg), None
         elif not is_valid:
             return None, None
         elif not station.membership.grant_access_to_membership(vehicle.membership):
